@@ -368,7 +368,7 @@ func VerifH06b() {
 			// no result-format code, or one (text or binary) that applies to all
 			// result columns — however many the statement has, none included
 			rf := vU16(0)
-			if nondetBool() {
+			if vParam("RF", 0) > 0 && nondetBool() {
 				rf = vCat(vU16(1), vU16(vChoose(2)))
 			}
 			add(i, 'B', vCat(vCStr([]byte(vNames(a1[i]))), vCStr([]byte(vNames(a2[i]))), vU16(0), vU16(0), rf))
@@ -684,6 +684,50 @@ func VerifH05b() {
 	if len(w.lastParse) == 2 && ranWant == 2 {
 		vReach("two-statements")
 	}
+}
+
+// ---------------------------------------------------------------------------
+// H06x — the designated replies do not depend on the state of the session's
+// context (C06): the context the embedder's middleware returned has been
+// cancelled (or not — the solver's choice) while the connection stays open,
+// and the client sends Parse, Bind, Describe portal, Execute, Close, Flush,
+// Sync for a statement that only completes. Each message gets its designated
+// reply, the Sync the only ReadyForQuery.
+// ---------------------------------------------------------------------------
+func VerifH06x() {
+	cancelled := nondetBool()
+	stmt := func(ctx context.Context, dw DataWriter, params []Parameter) error { return dw.Complete("T") }
+	parse := func(ctx context.Context, query string) (PreparedStatements, error) {
+		return Prepared(NewStatement(stmt)), nil
+	}
+	srv, err := NewServer(parse, MessageBufferSize(64))
+	vAssert("newserver-ok", err == nil)
+	input := vCat(
+		vMsgBytes('P', vCat(vCStr(nil), vCStr([]byte("q")), vU16(0))),
+		vMsgBytes('B', vCat(vCStr(nil), vCStr(nil), vU16(0), vU16(0), vU16(0))),
+		vMsgBytes('D', vCat([]byte{'P'}, vCStr(nil))),
+		vMsgBytes('E', vCat(vCStr(nil), vU32(0))),
+		vMsgBytes('C', vCat([]byte{'P'}, vCStr(nil))),
+		vMsgBytes('H', nil),
+		vMsgBytes('S', nil))
+	w := &vWorld{srv: srv}
+	w.conn = vNewConn(input)
+	w.ses, w.rd, w.wr = vSession(srv, w.conn)
+	ctx, cancel := context.WithCancel(vCtx(srv))
+	w.ctx = ctx
+	if cancelled {
+		cancel()
+		vReach("session-context-cancelled")
+	}
+	out := ""
+	for i := 0; i < 7; i++ {
+		got, e := w.step()
+		vAssert("connection-stays-up", e == nil)
+		out += got
+	}
+	cancel()
+	vAssert("designated-replies-one-ReadyForQuery", out == "12nC3Z")
+	vAssert("wire-wellformed", vWireOK(w.conn.out))
 }
 
 // ---------------------------------------------------------------------------
